@@ -110,8 +110,14 @@ impl Block {
                 let mut builder =
                     unsafe { Slice::builder_unzeroed(header.uncompressed_length as usize) };
 
-                lz4_flex::decompress_into(&raw_data, &mut builder)
+                let decompressed_len = lz4_flex::decompress_into(&raw_data, &mut builder)
                     .map_err(|_| crate::Error::Decompress(compression))?;
+
+                // NOTE: The buffer is not zeroed, so a wrong length field must not be allowed
+                // to expose its uninitialized tail
+                if decompressed_len != header.uncompressed_length as usize {
+                    return Err(crate::Error::Decompress(compression));
+                }
 
                 builder.freeze().into()
             }
@@ -171,8 +177,14 @@ impl Block {
                 let mut builder =
                     unsafe { Slice::builder_unzeroed(header.uncompressed_length as usize) };
 
-                lz4_flex::decompress_into(raw_data, &mut builder)
+                let decompressed_len = lz4_flex::decompress_into(raw_data, &mut builder)
                     .map_err(|_| crate::Error::Decompress(compression))?;
+
+                // NOTE: The buffer is not zeroed, so a wrong length field must not be allowed
+                // to expose its uninitialized tail
+                if decompressed_len != header.uncompressed_length as usize {
+                    return Err(crate::Error::Decompress(compression));
+                }
 
                 builder.freeze().into()
             }
